@@ -184,15 +184,15 @@ def _remove_matched_tasks(
         if itask:
             # remove active task from the pool
             fnums_to_remove = itask.match_flows(flow_nums)
-            if not fnums_to_remove:
-                not_removed.add(itask.tokens.task)
-                continue
-            removed[itask.tokens.task] = fnums_to_remove
-            if fnums_to_remove == itask.flow_nums:
-                schd.pool.remove(itask, 'request')
-                to_kill.append(itask)
-                itask.removed = True
-            itask.flow_nums.difference_update(fnums_to_remove)
+            if fnums_to_remove:
+                removed[itask.tokens.task] = fnums_to_remove
+                if fnums_to_remove == itask.flow_nums:
+                    schd.pool.remove(itask, 'request')
+                    to_kill.append(itask)
+                    itask.removed = True
+                itask.flow_nums.difference_update(fnums_to_remove)
+            # (An active task that is in none of the given flows stays as it
+            # is, but its history in those flows is still erased below.)
 
         # remove task from the DB
         tdef = schd.config.taskdefs[id_['task']]
